@@ -10,6 +10,7 @@ import (
 	"sort"
 	"strings"
 	"sync"
+	"time"
 
 	"verifharness/vk"
 	"verifharness/world"
@@ -415,21 +416,19 @@ func genCase(rng *rand.Rand, p *world.Produced, id int, shape string, atk world.
 	return c, steps, advs
 }
 
-// Run is the check entry point.
-func Run(r *vk.Run) {
-	world.Silence()
-	r.Rule = "differential runs of a real full node (all loops) on the same delivery schedule with and without adversarial items built without the proposer's private key: " + strings.Join(Kinds, ", ") + "; ingress DA (same DA height as genuine blobs, before or after them, or empty DA heights) and P2P header store; positions before/at/after the genuine item of the same height; chains with empty and non-empty blocks; optionally the genuine data never reaches DA (so a forged copy of it must not advance DA inclusion). End states (blocks, state, DA-included height, recorded DA heights, execution and SetFinal logs) must be equal, no loop may have terminated for DA-borne material, every stored header must verify under the harness's copy of the proposer key, no DA-included mark for foreign hashes. Plus the header-only node: real go-header Store+Syncer behind subscriber/exchange doubles (clause light-node). non-trivial = at least one adversarial item and the genuine run applied at least one block; distinct by (chain shape, kinds, ingress, schedule)"
-	r.Assume("adversary has no access to the proposer's private key; items are delivered through the node's own DA scan / P2P store loops, not through libp2p gossip")
+type job struct {
+	p     *world.Produced
+	c     Case
+	steps []step
+	advs  []Adv
+}
+
+// buildJobs generates the case list: a function of (seed, tier) only.
+func buildJobs(r *vk.Run) ([]job, error) {
 	ctx := context.Background()
 	keys := world.NewKeys("proposer")
 	atk := world.NewKeys("attacker")
 	rng := r.Rand("cases")
-	type job struct {
-		p     *world.Produced
-		c     Case
-		steps []step
-		advs  []Adv
-	}
 	var jobs []job
 	id := 0
 	nChains := r.N(16, 150)
@@ -449,8 +448,7 @@ func Run(r *vk.Run) {
 		}
 		p, err := world.ProduceChain(ctx, spec, keys)
 		if err != nil {
-			r.Violation("producer", err.Error(), nil)
-			return
+			return nil, err
 		}
 		for k := 0; k < per; k++ {
 			c, steps, advs := genCase(rng, p, id, shape, atk)
@@ -458,24 +456,71 @@ func Run(r *vk.Run) {
 			jobs = append(jobs, job{p, c, steps, advs})
 		}
 	}
-	r.Require("differential", int64(len(jobs)*9/10))
+	return jobs, nil
+}
+
+func init() { vk.Children["c03"] = child }
+
+// child runs the cases of one shard (args: shard nShards tier). Adversarial bytes must never take the
+// process down; if they do, the parent attributes the death to the journaled case.
+func child(args []string) int {
+	world.Silence()
+	var shard, n int
+	fmt.Sscanf(args[0], "%d", &shard)
+	fmt.Sscanf(args[1], "%d", &n)
+	r := vk.NewChildRun("C03", args[2], Level, os.Stdout)
+	full := vk.NewRunNoCleanup("C03", args[2], Level)
+	jobs, err := buildJobs(full)
+	if err != nil {
+		r.Violation("producer", err.Error(), nil)
+		return 0
+	}
 	var wg sync.WaitGroup
 	ch := make(chan job)
-	for w := 0; w < 14; w++ {
+	for w := 0; w < 2; w++ {
 		wg.Add(1)
 		go func() {
 			defer wg.Done()
 			for j := range ch {
+				r.Journal(map[string]any{"case": j.c})
 				runCase(r, j.p, j.c, j.steps, j.advs)
+				r.FlushHits()
 			}
 		}()
 	}
-	for _, j := range jobs {
-		ch <- j
+	for i, j := range jobs {
+		if i%n == shard {
+			ch <- j
+		}
 	}
 	close(ch)
 	wg.Wait()
-	lightNode(r, keys, atk)
+	if shard == 0 {
+		r.Journal(map[string]any{"light_node": true})
+		lightNode(r, world.NewKeys("proposer"), world.NewKeys("attacker"))
+	}
+	r.FlushHits()
+	return 0
+}
+
+// Run is the check entry point.
+func Run(r *vk.Run) {
+	world.Silence()
+	r.Rule = "differential runs of a real full node (all loops) on the same delivery schedule with and without adversarial items built without the proposer's private key: " + strings.Join(Kinds, ", ") + "; ingress DA (same DA height as genuine blobs, before or after them, or empty DA heights) and P2P header store; positions before/at/after the genuine item of the same height; chains with empty and non-empty blocks; optionally the genuine data never reaches DA (so a forged copy of it must not advance DA inclusion). End states (blocks, state, DA-included height, recorded DA heights, execution and SetFinal logs) must be equal, no loop may have terminated for DA-borne material, every stored header must verify under the harness's copy of the proposer key, no DA-included mark for foreign hashes; cases run in child processes (a process killed by adversarial bytes is a violation). Plus the header-only node: real go-header Store+Syncer behind subscriber/exchange doubles (clause light-node-store). non-trivial = at least one adversarial item and the genuine run applied at least one block; distinct by (chain shape, kinds, ingress, schedule)"
+	r.Assume("adversary has no access to the proposer's private key; items are delivered through the node's own DA scan / P2P store loops, not through libp2p gossip")
+	jobs, err := buildJobs(r)
+	if err != nil {
+		r.Violation("producer", err.Error(), nil)
+		return
+	}
+	shards := 8
+	for _, res := range r.RunShards("c03", shards, shards, 60*time.Minute) {
+		if res.ExitErr != nil {
+			r.Violation("not-halted", fmt.Sprintf("the node process died (%v) while handling adversarial material", res.ExitErr),
+				map[string]any{"last_case_started": res.LastCase, "output_tail": res.Tail})
+		}
+	}
+	r.Require("differential", int64(len(jobs)*9/10))
 }
 
 func commitmentOf(txs [][]byte) []byte { return monitorsCommitment(txs) }
